@@ -63,8 +63,24 @@ func (b *shortBody) Close() error { return nil }
 
 func (s *rServer) RoundTrip(req *http.Request) (*http.Response, error) {
 	s.reqs++
-	s.invReqs++
 	s.sim.Point(vs.SiteNet)
+	if req.URL.Host == "other.test" {
+		// a second origin: always up, one fixed Taskfile at the same path as the first origin's
+		h := http.Header{}
+		h.Set("Content-Type", "text/yaml")
+		r := &http.Response{StatusCode: 200, Status: "200", Header: h, Request: req, ProtoMajor: 1, ProtoMinor: 1, Body: io.NopCloser(strings.NewReader(""))}
+		if req.URL.Path != "/tf.yml" {
+			r.StatusCode, r.Status = 404, "404"
+			return r, nil
+		}
+		if req.Method != "HEAD" {
+			body := "version: '3'\ntasks:\n  hello:\n    cmds:\n      - echo \"R2|fixed\"\n"
+			r.Body = io.NopCloser(strings.NewReader(body))
+			r.ContentLength = int64(len(body))
+		}
+		return r, nil
+	}
+	s.invReqs++
 	mk := func(code int, ctype, body string) *http.Response {
 		h := http.Header{}
 		h.Set("Content-Type", ctype)
@@ -132,6 +148,7 @@ type rStep struct {
 	Timeout  time.Duration
 	Answer   string // "", y, n, eof  ("" = no terminal)
 	Adv      time.Duration
+	FromSub  bool // the invocation starts in a sub-directory of the project (the Taskfile is found by walking up)
 	CrashN   int
 	Corrupt  string // content-other, content-garbage, checksum-del, timestamp-garbage
 }
@@ -142,6 +159,7 @@ type rProg struct {
 	Insecure bool
 	DirURL   int  // 0: the include names the file; k>0: it names a directory and the file is the k-th default name
 	Nested   bool // (https only) the remote Taskfile includes a plain-http Taskfile: refused without --insecure
+	Second   bool // a second remote include from another host, same path, fixed content
 	Steps    []rStep
 }
 
@@ -157,6 +175,9 @@ func genR(ch *vs.Choices, tier string) *rProg {
 	}
 	if p.Scheme == "https" && ch.Bool(1, 12) {
 		p.Nested = true
+	}
+	if p.Scheme == "https" && !p.Nested && !p.Optional && ch.Bool(1, 4) {
+		p.Second = true
 	}
 	n := 3 + ch.Draw(6)
 	if tier == "thorough" {
@@ -186,6 +207,7 @@ func genR(ch *vs.Choices, tier string) *rProg {
 			s.Expiry = []time.Duration{0, 0, time.Hour, 24 * time.Hour}[ch.Draw(4)]
 			s.Timeout = []time.Duration{10 * time.Second, time.Second}[ch.Draw(2)]
 			s.Answer = []string{"", "y", "n", "eof"}[ch.Draw(4)]
+			s.FromSub = ch.Bool(1, 5)
 			if s.Kind == "crash" {
 				s.CrashN = 1 + ch.Draw(12)
 			}
@@ -211,6 +233,9 @@ func (s rStep) String() string {
 		}
 		if s.Offline {
 			a = append(a, "--offline")
+		}
+		if s.FromSub {
+			a = append(a, "(from ./sub)")
 		}
 		a = append(a, fmt.Sprintf("--expiry=%v --timeout=%v answer=%q", s.Expiry, s.Timeout, s.Answer))
 		if s.Kind == "crash" {
@@ -283,11 +308,14 @@ func runROne(t *testing.T, ch *vs.Choices, prop, tier string, render bool, p *rP
 		srvPath = "/lib/" + rDefaultNames[p.DirURL-1]
 	}
 	rootYAML := fmt.Sprintf("version: '3'\nsilent: true\nincludes:\n  r: %s\ntasks:\n  default:\n    cmds:\n      - task: r:hello\n", url)
+	if p.Second {
+		rootYAML = fmt.Sprintf("version: '3'\nsilent: true\nincludes:\n  r: %s\n  r2: https://other.test/tf.yml\ntasks:\n  default:\n    cmds:\n      - task: r:hello\n      - task: r2:hello\n", url)
+	}
 	if p.Optional {
 		// optional only excuses an include that cannot be located; it must not excuse a refused approval
 		rootYAML = fmt.Sprintf("version: '3'\nsilent: true\nincludes:\n  r:\n    taskfile: %s\n    optional: true\ntasks:\n  default:\n    cmds:\n      - task: r:hello\n  local:\n    cmds:\n      - echo \"R|local\"\n", url)
 	}
-	out.Shape = vs.HashString(rootYAML + strings.Join(hs, "\n") + fmt.Sprint(p.Insecure, p.DirURL, p.Nested))
+	out.Shape = vs.HashString(rootYAML + strings.Join(hs, "\n") + fmt.Sprint(p.Insecure, p.DirURL, p.Nested, p.Second))
 	dir, err := newRunDir()
 	if err != nil {
 		out.HarnessError = err.Error()
@@ -298,6 +326,9 @@ func runROne(t *testing.T, ch *vs.Choices, prop, tier string, render bool, p *rP
 		out.HarnessError = err.Error()
 		return out
 	}
+	_ = os.MkdirAll(filepath.Join(dir, "sub"), 0o755)
+	origWD, _ := os.Getwd()
+	defer os.Chdir(origWD)
 	var trace []string
 	var log []string
 	oldRT := http.DefaultClient.Transport
@@ -332,6 +363,8 @@ func runROne(t *testing.T, ch *vs.Choices, prop, tier string, render bool, p *rP
 			approved := 0      // version whose checksum the user last approved (0 = none)
 			cacheGood := false // a copy has been downloaded and approved and nothing has damaged the cache since
 			cacheVersion := 0  // version of that copy
+			approved2 := false // (second origin) the user approved its fixed content
+			cacheGood2 := false
 			cacheDir := filepath.Join(dir, ".task", "remote")
 			for si, s := range p.Steps {
 				desc := fmt.Sprintf("step %d: %s", si, s.String())
@@ -356,14 +389,15 @@ func runROne(t *testing.T, ch *vs.Choices, prop, tier string, render bool, p *rP
 						switch {
 						case s.Corrupt == "content-other" && strings.HasSuffix(e.Name(), ".yaml"):
 							_ = os.WriteFile(full, []byte(rContent(99)), 0o644)
-							cacheGood = false
+							cacheGood, cacheGood2 = false, false
 							out.Hit("fault:store_corrupt_content_replaced")
 						case s.Corrupt == "content-garbage" && strings.HasSuffix(e.Name(), ".yaml"):
 							_ = os.WriteFile(full, []byte("{{{ not yaml"), 0o644)
-							cacheGood = false
+							cacheGood, cacheGood2 = false, false
 							out.Hit("fault:store_corrupt_content_garbage")
 						case s.Corrupt == "checksum-del" && strings.HasSuffix(e.Name(), ".checksum"):
 							_ = os.Remove(full)
+							cacheGood2, approved2 = false, false
 							cacheGood = false // the record of what was approved is gone: the copy cannot be trusted any more
 							out.Hit("fault:store_corrupt_checksum_deleted")
 						case s.Corrupt == "timestamp-garbage" && strings.HasSuffix(e.Name(), ".timestamp"):
@@ -382,6 +416,7 @@ func runROne(t *testing.T, ch *vs.Choices, prop, tier string, render bool, p *rP
 				stderr := &vs.Writer{Sim: sim, Stream: gid + "-err", Park: false}
 				prompted := 0
 				assumedYes := 0
+				prompted2, assumedYes2 := 0, 0
 				sim.OnWrite = func(g *vs.G, stream string, b []byte) {
 					if stream != gid {
 						return
@@ -390,12 +425,21 @@ func runROne(t *testing.T, ch *vs.Choices, prop, tier string, render bool, p *rP
 					if !(strings.Contains(txt, "remote Taskfile") || strings.Contains(txt, "has changed since")) {
 						return
 					}
+					second := strings.Contains(txt, "other.test")
 					if strings.Contains(txt, "[assuming yes]") {
-						assumedYes++
+						if second {
+							assumedYes2++
+						} else {
+							assumedYes++
+						}
 						return
 					}
 					if strings.HasSuffix(txt, "]: ") {
-						prompted++
+						if second {
+							prompted2++
+						} else {
+							prompted++
+						}
 						if s.Answer == "y" || s.Answer == "n" {
 							if f, err := os.OpenFile(stdinPath, os.O_APPEND|os.O_WRONLY, 0o644); err == nil {
 								f.WriteString(s.Answer + "\n")
@@ -413,8 +457,15 @@ func runROne(t *testing.T, ch *vs.Choices, prop, tier string, render bool, p *rP
 				var runErr, setupErr error
 				srv.invReqs = 0
 				before := len(sim.Events)
+				runDirOpt := task.WithDir(dir)
+				if s.FromSub {
+					// started in a sub-directory without --dir: the Taskfile is found by walking up
+					_ = os.Chdir(filepath.Join(dir, "sub"))
+					runDirOpt = task.WithDir("")
+					out.Hit("invoked_from_subdirectory")
+				}
 				root := sim.Go(gid, func() {
-					e := task.NewExecutor(task.WithDir(dir), task.WithStdin(stdin), task.WithStdout(stdout), task.WithStderr(stderr),
+					e := task.NewExecutor(runDirOpt, task.WithStdin(stdin), task.WithStdout(stdout), task.WithStderr(stderr),
 						task.WithInsecure(p.Insecure), task.WithDownload(s.Download), task.WithOffline(s.Offline), task.WithTimeout(s.Timeout),
 						task.WithCacheExpiryDuration(s.Expiry), task.WithAssumeYes(s.Yes), task.WithAssumeTerm(s.Answer != ""), task.WithVersionCheck(true))
 					if err := e.Setup(); err != nil {
@@ -425,6 +476,7 @@ func runROne(t *testing.T, ch *vs.Choices, prop, tier string, render bool, p *rP
 				})
 				oc := sim.Drive(root)
 				stdin.Close()
+				_ = os.Chdir(origWD)
 				if oc == vs.Deadlock {
 					out.Violate("C20", "invocation_never_returns|server="+srv.state, "%s never returned (simulated hour without progress): %v", desc, sim.BlockedSites(gid))
 					return
@@ -451,6 +503,28 @@ func runROne(t *testing.T, ch *vs.Choices, prop, tier string, render bool, p *rP
 					if ev.Stream == gid && strings.Contains(ev.Line, "]: R|v") {
 						fmt.Sscanf(ev.Line[strings.Index(ev.Line, "]: R|v")+3:], "R|v%d", &ran)
 					}
+				}
+				nR, nR2 := 0, 0
+				for _, ev := range sim.Events[before:] {
+					if ev.Stream == gid {
+						nR += strings.Count(ev.Line, "R|v")
+						nR2 += strings.Count(ev.Line, "R2|fixed")
+					}
+				}
+				if p.Second {
+					if nR > 1 || nR2 > 1 {
+						out.Violate("C20", "remote_files_mixed_up", "%s: the two remote includes (same path, different hosts) ran %d times the first origin's content and %d times the second's: one include got the other's file", desc, nR, nR2)
+					}
+					if (prompted2 > 0 && s.Answer == "y") || assumedYes2 > 0 {
+						approved2 = true
+					}
+					if nR2 > 0 && !approved2 {
+						out.Violate("C20", "unapproved_content_ran|second_origin", "%s: the second origin's Taskfile was executed without ever having been approved (or after its approval record was deleted)", desc)
+					}
+					if (prompted > 0 || prompted2 > 0) && s.Answer != "y" && !s.Yes && !crashed && (ran != 0 || nR2 > 0) {
+						out.Violate("C20", "ran_after_declined_prompt", "%s: a prompt was answered %q but remote content was executed", desc, s.Answer)
+					}
+					out.Hit("second_origin")
 				}
 				trace = append(trace, vs.StripDir(fmt.Sprintf("   -> server=%s/v%d exit=%d crashed=%v prompted=%d ran=v%d err=%v", srv.state, srv.version, code, crashed, prompted, ran, err), dir))
 				if crashed {
@@ -518,8 +592,8 @@ func runROne(t *testing.T, ch *vs.Choices, prop, tier string, render bool, p *rP
 				}
 				// ---- availability ----------------------------------------------------------------------
 				netDown := srv.state == "refuse" || srv.state == "hang" || srv.state == "hang-get" || srv.state == "hang-late"
-				if cacheGood && !crashed && (s.Offline || netDown) {
-					if ran != cacheVersion || code != 0 {
+				if cacheGood && (!p.Second || cacheGood2) && !crashed && (s.Offline || netDown) {
+					if ran != cacheVersion || code != 0 || (p.Second && nR2 != 1) {
 						how := "offline"
 						if !s.Offline {
 							how = "net_" + srv.state
@@ -534,8 +608,11 @@ func runROne(t *testing.T, ch *vs.Choices, prop, tier string, render bool, p *rP
 				}
 				// ---- model update ----------------------------------------------------------------------
 				if crashed {
-					cacheGood = false // only durable state survives; the cache triple may be half written
+					cacheGood, cacheGood2 = false, false // only durable state survives; the cache triples may be half written
 					continue
+				}
+				if p.Second && code == 0 && nR2 > 0 && approved2 {
+					cacheGood2 = true
 				}
 				if code == 0 && ran != 0 && ran == approved {
 					cacheGood, cacheVersion = true, ran
